@@ -97,7 +97,10 @@ theorem fresh_not_cancelled (cfg : Cfg) (s s' : St) (c : Cid) (reuse : Bool) (h 
 /-- **`para` is clean at the end** (∀ API, ∀ wake reason, ∀ pool history): whenever a coroutine is in user code – in
     particular when it has just been spawned on a pooled stack, and when its closure ends (`dropping`) – the `para`
     slot of its generator is empty, and so is the slot of every generator in the pool. A `para` exists only between
-    its setter (timer, cancel, cancel shortcut) and the consumer of the same blocking call. -/
+    its setter (timer, cancel, cancel shortcut) and the consumer of the same blocking call. This includes blocking calls
+    made by `Drop` impls WHILE the coroutine unwinds (`yield_now`, `sleep`, park with or without time-out, with any
+    wake reason): there `check_cancel` does not panic again but still consumes the para – for a `Drop` that calls
+    `yield_now()` on a cancelled coroutine it is the only consumer (table row "shortcut while unwinding"). -/
 theorem para_clean_at_end (sched : List (Nat × Env)) :
     (∀ c, live ((run fixed init sched).pcs c) = true → carrying ((run fixed init sched).pcs c) = false →
         (run fixed init sched).sh.para ((run fixed init sched).sh.gen c) = none) ∧
@@ -137,7 +140,35 @@ example : (run fixed init [(0, .spawn false), (0, .acc 0), (0, .call (.park fals
 example : (run fixed init [(0, .spawn false), (0, .acc 0), (0, .call (.park false)), (0, .go), (0, .cancel), (0, .wake .cancel), (0, .go), (0, .go),
     (0, .drop true), (1, .spawn true), (1, .call (.park false)), (1, .go), (1, .wake .unpark), (1, .go), (1, .go)]).sh.lastPark 1 = some none := by decide
 -- fixed `send`: a cancel between its check_cancel and the yield does not take the shortcut
-example : (run fixed init [(0, .spawn false), (0, .call .send), (0, .go), (0, .cancel), (0, .go)]).pcs 0 = .parked .send := by decide
+example : (run fixed init [(0, .spawn false), (0, .call .send), (0, .go), (0, .cancel), (0, .go)]).pcs 0 = .parked false .send := by decide
+
+-- a coroutine cancelled while parked unwinds; a `Drop` impl calls `yield_now()` during the unwind: the shortcut sets
+-- `Canceled`, `check_cancel` (not panicking again) consumes it; the successor on the pooled stack parks cleanly
+example : (run fixed init [(0, .spawn false), (0, .call (.park false)), (0, .go), (0, .cancel), (0, .wake .cancel), (0, .go),
+    (0, .call .yieldNow), (0, .go)]).pcs 0 = .shortcut true .yieldNow := by decide
+example : (run fixed init [(0, .spawn false), (0, .call (.park false)), (0, .go), (0, .cancel), (0, .wake .cancel), (0, .go),
+    (0, .call .yieldNow), (0, .go), (0, .go), (0, .go), (0, .go), (0, .drop true),
+    (1, .spawn true), (1, .call (.park false)), (1, .go), (1, .wake .unpark), (1, .go), (1, .go)]).sh.lastPark 1 = some none := by decide
+
+/-! ### Negation witness: the seeded change C15_a (`get_co_para` moved inside `if !thread::panicking()`) -/
+
+/-- **C15_a**: with `check_cancel` clearing the para only when it is going to panic, the `Canceled` that the
+    `yield_with` shortcut sets for a `Drop` impl's `yield_now()` during the Cancel unwind is never consumed: it stays in
+    the pooled generator and the next coroutine on that stack – never cancelled – gets `Canceled` from its first park
+    although it was woken by an ordinary unpark (⇒ `Mutex::lock` raises a Cancel panic nobody requested). -/
+theorem seeded_c15a_stale_para : ∃ sched,
+    (run seededC15a init sched).sh.gen 1 = (run seededC15a init sched).sh.gen 0 ∧
+    (run seededC15a init sched).sh.cancelBit 1 = false ∧
+    (run seededC15a init sched).sh.lastPark 1 = some (some .canceled) :=
+  ⟨[(0, .spawn false), (0, .call (.park false)), (0, .go), (0, .cancel), (0, .wake .cancel), (0, .go),   -- cancelled while parked: Cancel panic
+    (0, .call .yieldNow), (0, .go), (0, .go), (0, .go),                                                     -- Drop: yield_now → shortcut, check_cancel does not clear
+    (0, .go), (0, .drop true),                                                                              -- the stack is pooled
+    (1, .spawn true), (1, .call (.park false)), (1, .go), (1, .wake .unpark), (1, .go), (1, .go)], by decide⟩
+
+/-- a `Drop` that sleeps or parks during the unwind is harmless even with the seeded change: these APIs consume the
+    para themselves -/
+example : (run seededC15a init [(0, .spawn false), (0, .call (.park false)), (0, .go), (0, .cancel), (0, .wake .cancel), (0, .go),
+    (0, .call .sleep), (0, .go), (0, .go), (0, .go)]).sh.para 0 = none := by decide
 
 /-! ### Negation witness: F8 on the pinned code -/
 
